@@ -38,7 +38,7 @@ def _child_env():
 
 def new_store(cfg, root=None):
     from hashstore.filehashstore import FileHashStore
-    root = root or tempfile.mkdtemp(prefix="hsreplay_")
+    root = root or tempfile.mkdtemp(prefix=f"hsreplay_{os.getpid()}_")
     props = {"store_path": os.path.join(root, "store"), "store_depth": cfg.get("depth", 3),
              "store_width": cfg.get("width", 2), "store_algorithm": cfg.get("algorithm", "SHA-256"),
              "store_metadata_namespace": cfg.get("namespace", "https://ns.dataone.org/service/types/v2.0#SystemMetadata")}
@@ -269,7 +269,7 @@ def main():
         print(json.dumps({"reproduced": None, "observed": "driver error: " + traceback.format_exc()[-800:]}))
     finally:
         for d in os.listdir(tempfile.gettempdir()):
-            if d.startswith("hsreplay_"):
+            if d.startswith(f"hsreplay_{os.getpid()}_"):      # only what this process created
                 shutil.rmtree(os.path.join(tempfile.gettempdir(), d), ignore_errors=True)
 
 
@@ -1815,6 +1815,90 @@ def o_store_with_cwd_decoy(p, cfg):
     return False, "objects are stored inside the store whatever the working directory holds"
 
 
+def o_uppercase_cid(p, cfg):
+    """C04 / C15: a cid handed to tag_object / delete_if_invalid_object in upper case is another
+    identifier than the lower-case digest: nothing done through it may remove the object that the
+    lower-case cid names while pids still reference it."""
+    from hashstore.filehashstore import ObjectMetadata
+    store, props, root = new_store(cfg)
+    lay = layout.Layout(props)
+    alg = layout.HASHLIB[props["store_algorithm"]]
+    x = b"shared content X"
+    cid = hashlib.new(alg, x).hexdigest()
+    store.store_object("pid-a", tmp_input(root, x, "a.bin"))
+    store.store_object("pid-b", tmp_input(root, x, "b.bin"))
+    out = outcome(store.tag_object, "pid-c", cid.upper())
+    if out[0] == "return":
+        outcome(store.delete_object, "pid-c")
+    if cid not in lay.view()["O"]:
+        return True, ("tag_object(pid-c, CID in upper case) + delete_object(pid-c) removed the object that "
+                      "pid-a and pid-b still reference")
+    hd = {a: hashlib.new(a, x).hexdigest() for a in ("md5", "sha1", "sha256", "sha384", "sha512")}
+    om = ObjectMetadata("HashStoreNoPid", cid.upper(), len(x), hd)
+    outcome(store.delete_if_invalid_object, om, hd["sha256"], "sha256", len(x) + 1)
+    if cid not in lay.view()["O"]:
+        return True, ("delete_if_invalid_object with the cid in upper case and a wrong size removed the "
+                      "object that pid-a and pid-b still reference")
+    got = outcome(lambda: store.retrieve_object("pid-a").read())
+    if got[0] != "return" or got[1] != x:
+        return True, "pid-a no longer retrieves its bytes"
+    return False, "an upper-case spelling of a cid never reaches the lower-case cid's object"
+
+
+def o_race_slow_store_meta(p, cfg):
+    """C12 / C09: store_metadata fed by a stream that stalls half-way, while delete_metadata(pid)
+    (delete all) or delete_object(pid) runs on the same pid: the storing call must not fail, nothing
+    half-written may be taken for a document, and the final document is absent or complete."""
+    import threading
+    import time as _t
+
+    class Slow(io.BytesIO):
+        def __init__(self, data, gate, stalled):
+            super().__init__(data)
+            self.gate, self.stalled, self.n = gate, stalled, 0
+
+        def read(self, size=-1):
+            self.n += 1
+            if self.n == 2:
+                self.stalled.set()
+                self.gate.wait(10)
+            half = max(1, len(self.getvalue()) // 2)
+            return super().read(half if self.n == 1 else size)
+    doc = b"<document>" + b"x" * 4000 + b"</document>"
+    for other in ("delete_all", "delete_object"):
+        store, props, root = new_store(cfg)
+        pid, fmt = "pid-slow", "fmt-slow"
+        store.store_object(pid, tmp_input(root, b"object bytes", "o.bin"))
+        gate, stalled = threading.Event(), threading.Event()
+        res = {}
+
+        def run():
+            res["A"] = outcome(store.store_metadata, pid, Slow(doc, gate, stalled), fmt)
+        t = threading.Thread(target=run, daemon=True)
+        t.start()
+        if not stalled.wait(10):
+            gate.set()
+            t.join(10)
+            return None, "the storing call never stalled"
+        b = outcome(store.delete_metadata, pid) if other == "delete_all" else outcome(store.delete_object, pid)
+        gate.set()
+        t.join(15)
+        if t.is_alive():
+            return True, "store_metadata never finished"
+        if res["A"][0] != "return":
+            return True, (f"store_metadata failed with {res['A'][1]} ({res['A'][2][:100]}) because a concurrent "
+                          f"{other} on the same pid took its half-written temporary file for a document")
+        if b[0] != "return":
+            return True, f"{other} failed with {b[1]} while a store_metadata of the same pid was in progress"
+        got = outcome(lambda: store.retrieve_metadata(pid, fmt).read())
+        if got[0] == "return" and got[1] != doc:
+            return True, "a partial metadata document is retrievable"
+        shutil.rmtree(root, ignore_errors=True)
+    return False, "a stalled store_metadata and a concurrent delete-all / delete_object do not disturb each other"
+
+
+ORACLES["race_slow_store_meta"] = o_race_slow_store_meta
+ORACLES["uppercase_cid"] = o_uppercase_cid
 ORACLES["store_with_cwd_decoy"] = o_store_with_cwd_decoy
 ORACLES["mp_fork_wait"] = o_mp_fork_wait
 ORACLES["race_meta_pause"] = o_race_meta_pause
